@@ -245,6 +245,7 @@ def make_run(focus, seed):
         feedback = False
         if (not poison and len(prog['n_in']) == 1 and len(prog['out_shapes']) == 1
                 and prog['out_shapes'][0] == [prog['n_in'][0]] and c.last_fwd_kind is not None
+                and not prog.get('frozen')     # (a returned view may share memory with a frozen constant)
                 and c.last_fwd_kind[0] in ('nd', 'utpm') and rng.random() < 0.4):
             # fixed-point style use: the object the previous evaluation returned is passed
             # straight back in (same kind, D, P; the values are whatever it holds by then)
